@@ -128,6 +128,8 @@ var (
 	seedsOnce sync.Once
 	seeds     []*seedT
 	seedsErr  []string
+	litTotal  int // programs of the literal family
+	litParsed int // ... that the parser accepts (the others use a spelling outside the language)
 )
 
 func loadSeeds() ([]*seedT, []string) {
@@ -171,6 +173,14 @@ func loadSeeds() ([]*seedT, []string) {
 		}
 		for _, c := range wzCorpus {
 			add("corpus:"+c.Name, "wz", c.Name+".wz", []byte(c.Src), true)
+		}
+		for _, lp := range literalPrograms() {
+			n0 := len(seeds)
+			add(lp[0]+" ("+lp[1]+")", lp[1], "lit."+lp[1], []byte(lp[2]), false)
+			litTotal++
+			if len(seeds) > n0 {
+				litParsed++
+			}
 		}
 		files := map[string][]byte{}
 		walk := func(fsys fs.FS) {
@@ -538,6 +548,22 @@ func tail2(p string) string {
 	return strings.Join(parts, "/")
 }
 
+// rawControlNear reports a raw form feed byte (legal inside rune and string literals, and the
+// printer's own line-break character) on the line of offset off or the line before it.
+func rawControlNear(text string, off int) string {
+	off = min(off, len(text))
+	lo := strings.LastIndexByte(text[:off], '\n')
+	if lo > 0 {
+		lo = strings.LastIndexByte(text[:lo], '\n')
+	}
+	hi := off + strings.IndexByte(text[off:]+"\n", '\n')
+	seg := text[lo+1 : min(hi, len(text))]
+	if strings.ContainsRune(seg, '\f') {
+		return "raw-formfeed-in-literal"
+	}
+	return ""
+}
+
 // constructAt names the innermost AST nodes of f covering byte offset off.
 func constructAt(fset *token.FileSet, f *ast.File, off int) (res string) {
 	defer func() {
@@ -724,6 +750,17 @@ func check(s *seedT, p []byte, desc, altClass string, wat bool, st *oracleStats)
 			d++
 		}
 		where := constructAt(fset1, a1, d)
+		if !strings.HasPrefix(where, "comment(") {
+			// a comment that moved to the front of the differing position shows in the second result
+			if fset2, a2, err2 := parseSrc(s.File, []byte(f2)); err2 == nil {
+				if w2 := constructAt(fset2, a2, d); strings.HasPrefix(w2, "comment(") {
+					where = w2
+				}
+			}
+		}
+		if c := rawControlNear(f1, d); c != "" {
+			where = c // literal holding a raw form feed: the printer's own layout character
+		}
 		lo := max(0, d-40)
 		add("idempotent|"+syn+"|"+where, fmt.Sprintf("format(format(s)) != format(s); first difference at byte %d in %s", d, where),
 			fmt.Sprintf("format(s) around the difference: %q\nformat(format(s)):              %q", f1[lo:min(len(f1), d+40)], f2[lo:min(len(f2), d+40)]))
@@ -886,7 +923,7 @@ func main() {
 	gap1Tokens := mc.Pick(r, 150, 600)
 	gap2Tokens := 45
 
-	r.Rule("every seed; every single-gap perturbation (7 alternatives per gap) of every seed with <= T tokens; thorough: every pair of gap perturbations of the corpus programs with <= 45 tokens; " +
+	r.Rule("seeds = waroot files + grammar corpus + literal family (60 literal spellings: every kind, raw TAB/VT/FF, multi-byte, escapes, quotes, comment markers, multi-line raw strings x 6 placements x 2 syntaxes); every seed; every single-gap perturbation (7 alternatives per gap) of every seed with <= T tokens; thorough: every pair of gap perturbations of the corpus programs with <= 45 tokens; " +
 		"every permutation of the first <= 3 imports; the WAT oracle on every seed that compiles, on the comment-adjacent gap perturbations of the corpus programs, and (thorough) on all gap perturbations of corpus programs <= 120 tokens. " +
 		"Outcomes are (syntax, number of violated oracles, variant hash)")
 	r.Bound("gap1_max_tokens", gap1Tokens)
@@ -939,6 +976,11 @@ func main() {
 	r.Bound("seeds_wa", nseedWa)
 	r.Bound("seeds_wz", nseedWz)
 	r.Bound("corpus_programs", ncorpus)
+	r.Bound("literal_family_programs", litTotal)
+	r.Bound("literal_family_programs_parsing", litParsed)
+	if litParsed*10 < litTotal*6 {
+		r.HarnessError("only %d of %d literal family programs parse", litParsed, litTotal)
+	}
 	if nseedWa < 100 || nseedWz < 20 {
 		r.HarnessError("too few seeds: %d wa, %d wz", nseedWa, nseedWz)
 	}
